@@ -124,7 +124,13 @@ func init() { gin.SetMode(gin.ReleaseMode) }
 
 // NewProc builds a logical process. hooks are attached to its redis client before anything uses it.
 func (w *World) NewProc(hooks ...redis.Hook) *Proc {
-	client := redis.NewClient(&redis.Options{Addr: w.MR.Addr(), MaxRetries: -1, PoolSize: 8})
+	client := redis.NewClient(&redis.Options{Addr: w.MR.Addr(), MaxRetries: -1, PoolSize: 8,
+		// in-memory transport straight into miniredis: no TCP connection per process per case
+		Dialer: func(context.Context, string, string) (net.Conn, error) {
+			c, s := memPipe()
+			w.MR.Server().ServeConn(s)
+			return c, nil
+		}})
 	for _, h := range hooks {
 		client.AddHook(h)
 	}
@@ -214,7 +220,7 @@ var statusNames = []string{"new", "master", "info", "details", "details_retry", 
 //	SV,<addr>,<queryport>,<status>,<version>,<refreshedNs|z>,<info>,<details>   servers:items, by (ip, port)
 //	UP,<addr>,<score>   RF,<addr>,<score>                                       by (ip, port)
 //	ST,<bit>,<addr>                                                             bits in ds.Members() order, then (ip, port)
-//	LK,<addr>,<ttlms|nottl>
+//	LK,<addr>,<ttl|nottl>
 //	IN,<idhex>,<ip:port>   IU,<idhex>,<score>                                   by id
 //	PI,<n>,<addr>,<port>,<goal>,<retries>,<max>,<expiresNs|z>   PQ,<n>,<score>  n: rank by (score, payload text)
 //	XX,<key>                                                                    any other key
@@ -307,7 +313,7 @@ func (w *World) Dump() []string {
 		ttl := mr.TTL("servers:lock:" + a)
 		t := "nottl"
 		if ttl > 0 {
-			t = strconv.FormatInt(ttl.Milliseconds(), 10)
+			t = "ttl"
 		}
 		out = append(out, "LK,"+a+","+t)
 	}
